@@ -69,6 +69,8 @@ pub const A_ITEMS: &[&str] = &[
     "foreach i = [1, 2] in def fa#i : B2;",
     "class A2 { int h = 1; }\ndef ha : A2 { let h = 2; }",
     "def bad : Missing;",
+    // a diagnostic whose span covers a string literal (non-ASCII in the non-ASCII encoding)
+    "def tm { int g = \"str\"; }",
 ];
 
 fn encode(text: &str, nonascii: bool, crlf: bool) -> String {
@@ -104,7 +106,8 @@ pub fn workspaces(tier: Tier, mut f: impl FnMut(LspWs) -> bool) {
                     // with and without a line terminator after the last token (a span that ends at the end of the text)
                     for final_newline in [true, false] {
                         let a_body: String = word.iter().map(|&i| A_ITEMS[i]).collect::<Vec<_>>().join("\n");
-                        let a = format!("// root\ninclude \"b.td\"\n{a_body}\n");
+                        // the second include names a file with a blank and non-ASCII letters: its link span covers them
+                        let a = format!("// root\ninclude \"b.td\"\ninclude \"c é😀.td\"\n{a_body}\n");
                         let b = format!("// b line 1\n// b line 2\n/* b line 3\n   b line 4 */\n\n{}\n", bv.join("\n"));
                         let (mut ta, mut tb) = (encode(&a, nonascii, crlf), encode(&b, nonascii, crlf));
                         if !final_newline {
@@ -112,7 +115,7 @@ pub fn workspaces(tier: Tier, mut f: impl FnMut(LspWs) -> bool) {
                             ta.truncate(ta.trim_end_matches(['\r', '\n', ';']).len());
                             tb.push_str("def btail : B1<9");
                         }
-                        let ws = LspWs { files: vec![("a.td".into(), ta), ("b.td".into(), tb)] };
+                        let ws = LspWs { files: vec![("a.td".into(), ta), ("b.td".into(), tb), ("c é😀.td".into(), "class Cx;\n".into())] };
                         if !f(ws) {
                             return;
                         }
@@ -312,7 +315,7 @@ impl Engine for C09 {
 
     fn rule(&self, tier: Tier) -> String {
         format!(
-            "two-file workspaces: root a.td = prologue + include \"b.td\" + every sequence of 1..={} of {} statements that use b's declarations; b.td = a longer, differently-lined prologue + all {} declarations or all but one; \
+            "three-file workspaces: root a.td = prologue + include \"b.td\" + include of a file whose name has a blank and non-ASCII letters + every sequence of 1..={} of {} statements that use b's declarations; b.td = a longer, differently-lined prologue + all {} declarations or all but one; \
              x {{ASCII, 'é😀' before every statement and inside a string}} x {{LF, CRLF}} x {{complete, or ending in an unterminated statement whose last token touches the end of the text (both files)}}; the root is opened in the real server (framed JSON-RPC over an in-memory pipe) and, one message at a time, \
              definition and references at the start and middle of every identifier of both files, documentSymbol, foldingRange, documentLink, inlayHint(whole file) per file and the published diagnostics are compared. \
              non-trivial = every workspace (each has cross-file locations); distinct by construction.",
